@@ -65,6 +65,10 @@ impl<I: RecvmsgSyscall> RecvmsgSyscall for NioRecvmsgSyscall<I> {
             }
             let error_kind = Error::last_os_error().kind();
             if error_kind == ErrorKind::WouldBlock {
+                if !blocking {
+                    // the caller asked for a non-blocking descriptor: report it at once
+                    break;
+                }
                 //wait read event
                 left_time = start_time
                     .saturating_add(recv_time_limit(fd))
